@@ -113,15 +113,37 @@ def run(F):
         r.fail("weightconst|weight_constants|missing", "-", "WeightFunctionInfo::weight_constants not found")
     else:
         b = wb[0]
-        defs = Defs(b)
         k_param = next((l for l in range(1, b["arg_count"] + 1) if b.lname(l) == "k"), 2)
         n_src = 0
         bad = []
-        for bi, t in b.calls():
-            nm = callee(t)[2]
-            if nm in ("scalar_weight_constants", "vector_weight_constants"):
+        # the body and the closures written in it (the rows may be filled in `for_each` / chained iterators)
+        for x in [b] + [c for c in F.bodies if c.is_closure() and (c.d.get("parent") or "") == b.path]:
+            defs = Defs(x)
+            for bi, t in x.calls():
+                nm = callee(t)[2]
+                if nm not in ("scalar_weight_constants", "vector_weight_constants"):
+                    continue
                 n_src += 1
-                if not (len(t["args"]) == 2 and _from_param(b, defs, t["args"][1], k_param)):
+                a = t["args"][1] if len(t["args"]) == 2 else None
+                ok_ = False
+                if a is not None and x is b:
+                    ok_ = _from_param(b, defs, a, k_param)
+                elif a is not None and a.get("k") in ("copy", "move"):
+                    # inside a closure: the argument is the captured `k`
+                    pl = a["place"]
+                    for _ in range(5):
+                        nm_ = [p.get("n") for p in pl["p"] if isinstance(p, dict) and "f" in p]
+                        if pl["l"] == 1 and nm_:
+                            ok_ = nm_[0] == "k"
+                            break
+                        ds = defs.of(pl["l"])
+                        if len(ds) == 1 and ds[0][0] == "stmt" and ds[0][4]["k"] in ("use", "cast") and ds[0][4]["op"].get("k") in ("copy", "move"):
+                            pl = ds[0][4]["op"]["place"]
+                        elif len(ds) == 1 and ds[0][0] == "stmt" and ds[0][4]["k"] == "ref":
+                            pl = ds[0][4]["place"]
+                        else:
+                            break
+                if not ok_:
                     bad.append(t["span"])
         n += n_src
         iid = "weightconst|weight_constants"
@@ -130,7 +152,7 @@ def run(F):
             r.fail(iid + "|k", bad[0], "WeightFunctionInfo::weight_constants evaluates a weight function at something other than its parameter k")
         else:
             r.inst(iid, b.file_line(), "ok", sources=n_src)
-        r.floor("weight-constant sources in WeightFunctionInfo::weight_constants", n_src, 4)
+        r.floor("weight-constant sources in WeightFunctionInfo::weight_constants", n_src, 2)
     # (c)
     for suffix, callee_name, what in (("convolver::BulkConvolver::<T>::new", "weight_constants", "BulkConvolver::new"),
                                       ("weight_functions::WeightFunction::<T>::new_scaled", "scalar_weight_constants", "WeightFunction::new_scaled")):
@@ -153,6 +175,6 @@ def run(F):
             r.fail(iid, badh[0][1]["span"], "%s asks for the weight constants at a wave number that is not zero" % what)
         else:
             r.inst(iid, hits[0][1]["span"], "ok")
-    r.floor("weight-constant obligations", n, 8)
+    r.floor("weight-constant obligations", n, 6)
     r.exhaustive = True
     return [r]
